@@ -509,7 +509,7 @@ func famPanic(o *Out, r R, tier string) {
 			o.nontriv[hh.Sum64()] = struct{}{}
 		}
 	}
-	pieces := []string{"https://", "http://", "://", "*.", "*", "[", "]", "[::1]", ":", ":*", ":0", ":65536", ".", "..", "a", "example.com", "%", "xn--", "127.0.0.1", "\x00", "é", " ", "//", "@", "file", "null", "1.2.3.4.5", ":99999999999999999999"}
+	pieces := []string{"https://", "http://", "://", "*.", "*", "[", "]", "[]", "[]:9", "[::1]", ":", ":*", ":0", ":65536", ".", "..", "a", "example.com", "%", "xn--", "127.0.0.1", "\x00", "é", " ", "//", "@", "file", "null", "1.2.3.4.5", ":99999999999999999999"}
 	genStr := func() string {
 		switch r.Intn(5) {
 		case 0:
@@ -538,6 +538,21 @@ func famPanic(o *Out, r R, tier string) {
 		return l
 	}
 	valid, _ := cors.NewMiddleware(cors.Config{Origins: []string{"https://*.example.com", "http://[::1]:*"}, Credentialed: true, Methods: []string{"PUT"}, RequestHeaders: []string{"x-foo", "x-bar"}, MaxAgeInSeconds: 5})
+	// every probe origin of the request families (incl. degenerate bracket forms), as actual request and as preflight
+	for _, og := range originProbes(&cors.Config{Origins: []string{"https://*.example.com", "http://[::1]:8080"}}, r) {
+		for _, q := range []reqT{{method: "GET", hdrs: http.Header{"Origin": {og}}},
+			{method: "OPTIONS", hdrs: http.Header{"Origin": {og}, "Access-Control-Request-Method": {"PUT"}}}} {
+			for _, dbg := range []bool{false, true} {
+				valid.SetDebug(dbg)
+				q := q
+				guard("panic/request", "ServeHTTP on "+truncate(str(q.sx())), func() {
+					if out := serveOnce(valid, q, http.Header{}); out.panicked {
+						panic("handler panicked")
+					}
+				})
+			}
+		}
+	}
 	valid2, _ := cors.NewMiddleware(cors.Config{Origins: []string{"*"}, RequestHeaders: []string{"*"}, Methods: []string{"*"}})
 	for i := 0; i < n; i++ {
 		c := cors.Config{Origins: genList(), Credentialed: r.chance(1, 2), Methods: genList(), RequestHeaders: genList(),
@@ -700,6 +715,16 @@ func famAlloc(o *Out, r R, tier string) {
 					q.hdrs["Access-Control-Request-Headers"] = []string{"x-a" + strings.Repeat(",", min(n, 16)) + "x-b"}
 				case "acrh-elems":
 					q.hdrs["Access-Control-Request-Headers"] = []string{strings.TrimSuffix(strings.Repeat("x-a,", n), ",")}
+				case "acrh-elems-upper":
+					q.hdrs["Access-Control-Request-Headers"] = []string{strings.TrimSuffix(strings.Repeat("X-A,", n), ",")}
+				case "acrh-elems-mixed":
+					q.hdrs["Access-Control-Request-Headers"] = []string{strings.TrimSuffix(strings.Repeat("x-a, X-B ,\tx-c,", n), ",")}
+				case "acrm-values":
+					q.hdrs["Access-Control-Request-Method"] = append([]string{"PUT"}, make([]string, n)...)
+				case "acrpn-values":
+					q.hdrs["Access-Control-Request-Private-Network"] = append([]string{"true"}, make([]string, n)...)
+				case "origin-upper":
+					q.hdrs["Origin"] = []string{"HTTPS://" + strings.Repeat("A", n) + ".EXAMPLE.COM"}
 				case "acrh-len":
 					q.hdrs["Access-Control-Request-Headers"] = []string{strings.Repeat("x", n)}
 				case "acrh-lines":
@@ -717,7 +742,7 @@ func famAlloc(o *Out, r R, tier string) {
 				}
 				return q
 			}
-			for _, kind := range []string{"origin-len", "origin-values", "acrm-len", "acrh-elems-valid", "acrh-elems", "acrh-len", "acrh-lines", "acrh-ows", "actual-origin-len", "actual"} {
+			for _, kind := range []string{"origin-len", "origin-values", "origin-upper", "acrm-len", "acrm-values", "acrpn-values", "acrh-elems-valid", "acrh-elems", "acrh-elems-upper", "acrh-elems-mixed", "acrh-len", "acrh-lines", "acrh-ows", "actual-origin-len", "actual"} {
 				base := allocsFor(m, mk(kind, 1))
 				worst, at := base, 1
 				for _, n := range sizes[1:] {
